@@ -46,17 +46,32 @@ theorem ofType_ofRepr_never_panic (ty : Ty) (d : DM) :
   ⟨ideal_never_panics .type ty false none d, ideal_never_panics .repr ty false none d⟩
 
 /-- **never_panics_without_panic_flags.**  More generally: an engine panics only through one of its
-    two panic quirks.  Whatever the other nine flags are, `build` never panics. -/
+    three panic quirks: `nullableUnionPanic`, `lpUnknownKeyPanic` (reflection binding) and
+    `assignNodeSkipsBegin` (generated code), the last only when the builder is driven by `AssignNode`
+    of prebuilt nodes (`viaNode`).  Whatever the other thirteen flags and the driving mode `viaKeys`
+    are, `build` never panics.  (`h3` is needed: `assignNodeSkipsBegin_panics`.) -/
 theorem never_panics_without_panic_flags (e : Engine) (h1 : e.nullableUnionPanic = false)
-    (h2 : e.lpUnknownKeyPanic = false) (lvl : Level) (ty : Ty) (nul : Bool) (cur : Option TL) (d : DM) :
+    (h2 : e.lpUnknownKeyPanic = false) (h3 : (e.viaNode && e.assignNodeSkipsBegin) = false)
+    (lvl : Level) (ty : Ty) (nul : Bool) (cur : Option TL) (d : DM) :
     build e lvl ty nul cur d ≠ .panic :=
-  build_noPanic e ⟨h1, h2⟩ lvl ty nul cur d
+  build_noPanic e ⟨h1, h2, h3⟩ lvl ty nul cur d
 
-/-- The helper builders never panic either (any engine without the two panic flags): scalars
+/-- `h3` of `never_panics_without_panic_flags` / `helpers_never_panic` is needed: with `assignNodeSkipsBegin`
+    under `viaNode` (and no other flag) a prebuilt `{k: 1}` handed to `{String: Int}` panics, and so does the
+    list helper on a prebuilt `{a: 1}` handed to a nullable `struct {a Int}` element.  Either of the two alone is
+    harmless (by the theorem itself). -/
+theorem assignNodeSkipsBegin_panics :
+    build { viaNode := true, assignNodeSkipsBegin := true } .type (.map .int false) false none
+        (.map (.cons [107] (.int 1) .nil)) = .panic ∧
+    buildList { viaNode := true, assignNodeSkipsBegin := true } .type
+        (.struct (.cons [97] [97] false false .int .nil) .map) true []
+        (.cons (.map (.cons [97] (.int 1) .nil)) .nil) = .panic := by decide
+
+/-- The helper builders never panic either (any engine without the three panic flags): scalars
     (kinded / stringprefix / stringjoin / enum dispatch), kinded dispatch on lists and maps, list
     elements, typed-map entries, struct-as-map, tuple, listpairs, union-as-map. -/
 theorem helpers_never_panic (e : Engine) (h1 : e.nullableUnionPanic = false)
-    (h2 : e.lpUnknownKeyPanic = false) :
+    (h2 : e.lpUnknownKeyPanic = false) (h3 : (e.viaNode && e.assignNodeSkipsBegin) = false) :
     (∀ lvl nul d ty, buildScalar e lvl nul d ty ≠ .panic) ∧
     (∀ nul k ty, resolveKinded e nul k ty ≠ .panic) ∧
     (∀ lvl ety enul acc xs, buildList e lvl ety enul acc xs ≠ .panic) ∧
@@ -65,14 +80,14 @@ theorem helpers_never_panic (e : Engine) (h1 : e.nullableUnionPanic = false)
     (∀ fs st i xs, buildTuple e fs st i xs ≠ .panic) ∧
     (∀ fs st xs, buildPairs e fs st xs ≠ .panic) ∧
     (∀ lvl ms cur n es, buildUnion e lvl ms cur n es ≠ .panic) :=
-  ⟨fun lvl nul d ty => buildScalar_noPanic e ⟨h1, h2⟩ lvl nul d ty,
-   fun nul k ty => resolveKinded_noPanic e ⟨h1, h2⟩ nul k ty,
-   fun lvl ety enul acc xs => buildList_noPanic e ⟨h1, h2⟩ lvl ety enul acc xs,
-   fun lvl vty vnul acc es => buildMap_noPanic e ⟨h1, h2⟩ lvl vty vnul acc es,
-   fun lvl fs st es => buildStruct_noPanic e ⟨h1, h2⟩ lvl fs st es,
-   fun fs st i xs => buildTuple_noPanic e ⟨h1, h2⟩ fs st i xs,
-   fun fs st xs => buildPairs_noPanic e ⟨h1, h2⟩ fs st xs,
-   fun lvl ms cur n es => buildUnion_noPanic e ⟨h1, h2⟩ lvl ms cur n es⟩
+  ⟨fun lvl nul d ty => buildScalar_noPanic e ⟨h1, h2, h3⟩ lvl nul d ty,
+   fun nul k ty => resolveKinded_noPanic e ⟨h1, h2, h3⟩ nul k ty,
+   fun lvl ety enul acc xs => buildList_noPanic e ⟨h1, h2, h3⟩ lvl ety enul acc xs,
+   fun lvl vty vnul acc es => buildMap_noPanic e ⟨h1, h2, h3⟩ lvl vty vnul acc es,
+   fun lvl fs st es => buildStruct_noPanic e ⟨h1, h2, h3⟩ lvl fs st es,
+   fun fs st i xs => buildTuple_noPanic e ⟨h1, h2, h3⟩ fs st i xs,
+   fun fs st xs => buildPairs_noPanic e ⟨h1, h2, h3⟩ fs st xs,
+   fun lvl ms cur n es => buildUnion_noPanic e ⟨h1, h2, h3⟩ lvl ms cur n es⟩
 
 /-! ## C09-4 — no silently non-conforming node -/
 
@@ -175,44 +190,83 @@ theorem normalize_conforms (ty : Ty) (nul : Bool) (v : TL) (hwf : ty.wf = true)
 
 /-- **accepted_by_every_engine.**  An input the ideal builder accepts (either level, any type — no
     well-formedness needed) is accepted, with the same node, by the builder of EVERY engine that does
-    not have the `nullableUnionPanic` quirk — whatever its other ten flags are. -/
-theorem accepted_by_every_engine (e : Engine) (hn : e.nullableUnionPanic = false) (lvl : Level)
+    not have one of the four quirks that refuse or break accepted input: `nullableUnionPanic`
+    (reflection binding), `prefixEmptyDelimSplit`, `kindedNullRejected`, and `assignNodeSkipsBegin`
+    under the driving mode `viaNode` (generated code) — whatever its other twelve flags (among them
+    `tupleShortAccepted` and `keyAsmDupMapKey`) and the driving mode `viaKeys` are.
+    Each hypothesis is needed: `nullableUnionPanic_is_the_exception`, `gen_flags_that_break_accepted_input`. -/
+theorem accepted_by_every_engine (e : Engine) (hn : e.nullableUnionPanic = false)
+    (hp : e.prefixEmptyDelimSplit = false) (hk : e.kindedNullRejected = false)
+    (ha : (e.viaNode && e.assignNodeSkipsBegin) = false) (lvl : Level)
     (ty : Ty) (nul : Bool) (d : DM) (v : TL) (h : build Engine.ideal lvl ty nul none d = .ok v) :
     build e lvl ty nul none d = .ok v :=
-  build_mono e hn lvl d ty nul v h
+  build_mono e ⟨hn, hp, hk, ha⟩ lvl d ty nul v h
 
 /-- **quirks_only_on_rejects.**  Equivalently: wherever such an engine's outcome differs from the ideal
     one, the ideal outcome is `reject` — a flag only ever turns an ideal error into something else
     (a node, or — `lpUnknownKeyPanic` — a panic). -/
-theorem quirks_only_on_rejects (e : Engine) (hn : e.nullableUnionPanic = false) (lvl : Level)
+theorem quirks_only_on_rejects (e : Engine) (hn : e.nullableUnionPanic = false)
+    (hp : e.prefixEmptyDelimSplit = false) (hk : e.kindedNullRejected = false)
+    (ha : (e.viaNode && e.assignNodeSkipsBegin) = false) (lvl : Level)
     (ty : Ty) (nul : Bool) (d : DM)
     (h : build e lvl ty nul none d ≠ build Engine.ideal lvl ty nul none d) :
     build Engine.ideal lvl ty nul none d = .reject := by
   cases hi : build Engine.ideal lvl ty nul none d with
-  | ok v => exact absurd (by rw [build_mono e hn lvl d ty nul v hi, hi]) h
+  | ok v => exact absurd (by rw [build_mono e ⟨hn, hp, hk, ha⟩ lvl d ty nul v hi, hi]) h
   | reject => rfl
   | panic => exact absurd hi (ideal_never_panics lvl ty nul none d)
 
-/-- Any engine with that one quirk switched off (e.g. `{ Engine.bindnode with nullableUnionPanic := false }`,
-    whatever `Engine.bindnode` is). -/
+/-- Any engine with those four quirks switched off (e.g.
+    `{ Engine.bindnode with nullableUnionPanic := false, … }`, whatever `Engine.bindnode` is). -/
 example (e : Engine) (lvl : Level) (ty : Ty) (d : DM) (v : TL)
     (h : build Engine.ideal lvl ty false none d = .ok v) :
-    build { e with nullableUnionPanic := false } lvl ty false none d = .ok v :=
-  build_mono _ rfl lvl d ty false v h
+    build { e with nullableUnionPanic := false, prefixEmptyDelimSplit := false, kindedNullRejected := false,
+                   assignNodeSkipsBegin := false } lvl ty false none d = .ok v :=
+  build_mono _ ⟨rfl, rfl, rfl, by simp⟩ lvl d ty false v h
+
+/-- ... in particular generated code as it is (`Engine.gen`), driven through `AssembleEntry` or through the key
+    assembler: its one remaining flag `keyAsmDupMapKey` is not among the four. -/
+example (viaKeys : Bool) (lvl : Level) (ty : Ty) (d : DM) (v : TL)
+    (h : build Engine.ideal lvl ty false none d = .ok v) :
+    build { Engine.gen with viaKeys := viaKeys } lvl ty false none d = .ok v :=
+  build_mono _ ⟨rfl, rfl, rfl, rfl⟩ lvl d ty false v h
 
 /-- `struct { u nullable union { | String string } representation kinded }` -/
 def exNullableKinded : Ty :=
   .struct (.cons [117] [117] false true (.union (.cons [83] [] .str .str .nil) .kinded) .nil) .map
 
-/-- **nullableUnionPanic_is_the_exception.**  `nullableUnionPanic` is the one flag that breaks an input
-    the ideal engine accepts: `{"u": "x"}` conforms and is accepted; with the flag alone, the
-    representation builder panics. -/
+/-- **nullableUnionPanic_is_the_exception.**  `nullableUnionPanic` is the one flag of the reflection binding
+    that breaks an input the ideal engine accepts: `{"u": "x"}` conforms and is accepted; with the flag alone,
+    the representation builder panics. -/
 theorem nullableUnionPanic_is_the_exception :
     exNullableKinded.wf = true ∧
     ofRepr Engine.ideal exNullableKinded (.map (.cons [117] (.str [120]) .nil))
       = .ok (.map (.cons [117] (.map (.cons [83] (.str [120]) .nil)) .nil)) ∧
     ofRepr { nullableUnionPanic := true } exNullableKinded (.map (.cons [117] (.str [120]) .nil))
       = .panic := by decide
+
+/-- `union { | T1 "aa" } representation stringprefix` with the empty delimiter -/
+def exPrefixNoDelim : Ty := .union (.cons [84, 49] [97, 97] .str .str .nil) (.stringprefix [])
+
+/-- `[nullable union { | Int int } representation kinded]` -/
+def exListNullableKinded : Ty := .list (.union (.cons [84, 50] [84, 50] .int .int .nil) .kinded) true
+
+/-- **gen_flags_that_break_accepted_input.**  The three generated-code hypotheses of
+    `accepted_by_every_engine` / `quirks_only_on_rejects` are needed, each flag alone:
+    `prefixEmptyDelimSplit` refuses "aax" for the discriminant "aa"; `kindedNullRejected` refuses `[null]`
+    for a list of nullable kinded unions; `assignNodeSkipsBegin` under `viaNode` panics on a prebuilt
+    `{k: 1}` handed to `{String: Int}` — all three well-formed types, and inputs the ideal builder accepts. -/
+theorem gen_flags_that_break_accepted_input :
+    (exPrefixNoDelim.wf = true ∧
+     ofRepr Engine.ideal exPrefixNoDelim (.str [97, 97, 120]) = .ok (.map (.cons [84, 49] (.str [120]) .nil)) ∧
+     ofRepr { prefixEmptyDelimSplit := true } exPrefixNoDelim (.str [97, 97, 120]) = .reject) ∧
+    (exListNullableKinded.wf = true ∧
+     ofRepr Engine.ideal exListNullableKinded (.list (.cons .null .nil)) = .ok (.list (.cons .null .nil)) ∧
+     ofRepr { kindedNullRejected := true } exListNullableKinded (.list (.cons .null .nil)) = .reject) ∧
+    (ofType Engine.ideal (.map .int false) (.map (.cons [107] (.int 1) .nil))
+       = .ok (.map (.cons [107] (.int 1) .nil)) ∧
+     ofType { viaNode := true, assignNodeSkipsBegin := true } (.map .int false) (.map (.cons [107] (.int 1) .nil))
+       = .panic) := by decide
 
 /-! ## Examples: the hypotheses are satisfiable, and needed -/
 
